@@ -82,8 +82,39 @@ let hx l = let s = hex_of_bytes l in if s = "" then "-" else s
 (* ---------- components ---------- *)
 let bits_of_bools l = String.concat "" (List.map (fun b -> if b then "1" else "0") l)
 
+let string_of_err = function
+  | EAead -> "Aead" | EBadType -> "BadType" | EBadTime -> "BadTime" | EReplay -> "Replay" | EBadUser -> "BadUser"
+  | EBadPassword -> "BadPassword" | EBadAddrType -> "BadAddrType" | EBadCmd -> "BadCmd" | EShort -> "Short"
+  | EBadVersion -> "BadVersion" | EBadAuth -> "BadAuth" | EUtf8 -> "Utf8" | EBadLen -> "BadLen" | EOther -> "Other"
+
+let show_res (f : 'a -> string) (r : 'a res) : string =
+  match r with Ok a -> "OK " ^ f a | Err e -> "ERR " ^ string_of_err e | Panic -> "PANIC"
+
+let addr_str = function
+  | ADom (h, p) -> Printf.sprintf "D:%s:%d" (hx h) (int_of_n p)
+  | AV4 (ip, p) -> Printf.sprintf "4:%s:%d" (hx ip) (int_of_n p)
+  | AV6 (ip, p) -> Printf.sprintf "6:%s:%d" (hx ip) (int_of_n p)
+
+let parse_addr (s : string) : addr =
+  match String.split_on_char ':' s with
+  | [k; h; p] ->
+    let b = if h = "-" then [] else bytes_of_hex h in
+    let p = n_of_int (int_of_string p) in
+    (match k with "D" -> ADom (b, p) | "4" -> AV4 (b, p) | _ -> AV6 (b, p))
+  | _ -> failwith "addr"
+
+let unhex s = if s = "-" then [] else bytes_of_hex s
+
 let run_case (fields : string list) : string =
   match fields with
+  | "s5enc" :: a :: _ -> let a = parse_addr a in Printf.sprintf "OK %s %d" (hx (s5_encode a)) (int_of_n (s5_length a))
+  | "s5dec" :: b :: _ -> show_res (fun (a, rest) -> addr_str a ^ " " ^ hx rest) (s5_decode (unhex b))
+  | "s5try" :: b :: at :: _ ->
+    (match s5_try_decode_at (unhex b) (n_of_int (int_of_string at)) with
+     | Ok (Some n) -> Printf.sprintf "SOME %d" (int_of_n n) | Ok None -> "NONE"
+     | Err e -> "ERR " ^ string_of_err e | Panic -> "PANIC")
+  | "vmw" :: a :: _ -> show_res hx (vm_write (parse_addr a))
+  | "vmr" :: b :: _ -> show_res (fun (a, rest) -> addr_str a ^ " " ^ hx rest) (vm_read utf8_valid (unhex b))
   | "pw" :: limit :: ids :: _ ->
     (* packet window history from a fresh filter: verdict bits *)
     let ids = List.map n_of_hex (split_on ',' ids) in
